@@ -1456,6 +1456,7 @@ func (e *Engine) VerifyFunc(key string) {
 	}
 	// the entry snapshot must contain lazily created heaps referenced by requires: re-snapshot
 	entry = st.Clone()
+	e.curEntry = entry
 	mctx := e.funcCtx(p, fr, entry)
 	mctx.cur = entry
 	ms, err := e.buildModSet(mctx, ct.Modifies)
